@@ -292,10 +292,14 @@ func (e *Ev) heapRead(r VRef, field string, n ast.Node) Val {
 		e.unsupp(n, "type %s has no modelled field %s", r.Elem, field)
 	}
 	e.safety("nil", "nilderef", n.Pos(), sNot(sEq(r.T, "0")), "dereferenced "+r.Elem+" pointer is not nil")
+	e.fx.pureGround = e.contract && e.groundTerm(r.T)
 	return e.fx.readField(e.st, r.T, r.Elem, field, ft, e.contract)
 }
 
 func (fx *FuncCtx) readField(st *State, ref Term, elem, path string, ft types.Type, pure bool) Val {
+	// a pure (clause) read of a ground location still learns that stored references are allocated
+	ground := pure && fx.pureGround
+	fx.pureGround = false
 	key := elem + "." + path
 	nm := func(sort, hint string, t Term) Term {
 		if pure {
@@ -306,7 +310,7 @@ func (fx *FuncCtx) readField(st *State, ref Term, elem, path string, ft types.Ty
 	if en, ok := elemName(ft); ok {
 		arr := fx.hget(st, key, arrSort(sortInt))
 		v := nm(sortInt, "rf", sSel(arr, ref))
-		if !pure {
+		if !pure || ground {
 			fx.assume(st.pc, sAnd(sLe("0", v), sLe(v, fx.refBound(st, arr))))
 		}
 		return VRef{v, en}
@@ -314,7 +318,7 @@ func (fx *FuncCtx) readField(st *State, ref Term, elem, path string, ft types.Ty
 	if en, ok := ifaceElemName(ft); ok {
 		arr := fx.hget(st, key, arrSort(sortInt))
 		v := nm(sortInt, "rf", sSel(arr, ref))
-		if !pure {
+		if !pure || ground {
 			fx.assume(st.pc, sAnd(sLe("0", v), sLe(v, fx.refBound(st, arr))))
 		}
 		return VRef{v, en}
@@ -365,7 +369,11 @@ func (fx *FuncCtx) readField(st *State, ref Term, elem, path string, ft types.Ty
 	case *types.Map:
 		k, kind, ok := mapKinds(u)
 		if ok {
-			v := nm(sortInt, "rfm", sSel(fx.hget(st, key, arrSort(sortInt)), ref))
+			marr := fx.hget(st, key, arrSort(sortInt))
+			v := nm(sortInt, "rfm", sSel(marr, ref))
+			if ground {
+				fx.assume(st.pc, sAnd(sLe("0", v), sLe(v, fx.refBound(st, marr))))
+			}
 			return VMapRef{T: v, K: k, V: u.Elem(), Kind: kind}
 		}
 	case *types.Struct:
@@ -414,6 +422,7 @@ func (e *Ev) subField(s VSub, field string, n ast.Node) Val {
 	if ft == nil {
 		e.unsupp(n, "no modelled field %s.%s", s.Elem, path)
 	}
+	e.fx.pureGround = e.contract && e.groundTerm(s.Ref)
 	return e.fx.readField(e.st, s.Ref, s.Elem, path, ft, e.contract)
 }
 
@@ -435,6 +444,16 @@ func refTermsOf(v Val) []Term {
 		return out
 	}
 	return nil
+}
+
+// groundTerm: the term mentions no variable bound by an enclosing quantifier of the clause.
+func (e *Ev) groundTerm(t Term) bool {
+	for name := range e.bound {
+		if strings.Contains(t, name+"!") {
+			return false
+		}
+	}
+	return !strings.Contains(t, "!")
 }
 
 // ---------------------------------------------------------------------------
